@@ -63,7 +63,7 @@ class GraphCheck:
     def __init__(self, prop, oracles, rule, nontrivial, deciding, level="exploration",
                  exh_quick_full=False, profile=("stage", "table", "step"), scale=1.0,
                  classes=None, with_real=True, stages="JLB", extra_assumptions=(),
-                 per_case=None, cap_quick=300_000, cap_thorough=2_000_000):
+                 per_case=None, cap_quick=300_000, cap_thorough=2_000_000, use_byteflow=False):
         self.PROPERTY = prop
         self.oracles = set(oracles)
         self.RULE = rule
@@ -79,6 +79,7 @@ class GraphCheck:
         self.ASSUMPTIONS = list(GraphCheck.ASSUMPTIONS) + list(extra_assumptions)
         self.per_case = per_case
         self.caps = {"quick": cap_quick, "thorough": cap_thorough}
+        self.use_byteflow = use_byteflow
 
     # ------------------------------------------------------------ plan
     def plan(self, tier, seed):
@@ -151,6 +152,12 @@ class GraphCheck:
                 g = corpus.reference_cfg(co)
                 if graphs.closed_problems(g) is not None:
                     continue
+                if self.use_byteflow:
+                    # the library's own bytecode front end (real begin/end
+                    # payloads, ByteFlowRenderer applicable)
+                    yield {"kind": "code", "cls": "realbc", "g": g,
+                           "origin": f"{path}:{co.co_qualname}:{co.co_firstlineno}"}
+                    continue
                 yield {"kind": "graph", "cls": "realbc", "g": g, "payload": "bytecode",
                        "origin": f"{path}:{co.co_qualname}:{co.co_firstlineno}"}
         elif k == "realast":
@@ -166,6 +173,20 @@ class GraphCheck:
     def build(self, case, ctx):
         if case["kind"] == "graph":
             return drivers.make_scfg(case["g"], case.get("payload", "basic"))
+        if case["kind"] == "code":
+            from numba_scfg.core.datastructures.byte_flow import ByteFlow
+
+            path, qual, line = case["origin"].rsplit(":", 2)
+            for co in corpus.code_objects_of_file(path):
+                if co.co_qualname == qual and str(co.co_firstlineno) == line:
+                    try:
+                        flow = ByteFlow.from_bytecode(co)
+                    except Exception as e:
+                        ctx.hit("frontend_error." + type(e).__name__)
+                        return None
+                    ctx.data["flow"] = flow
+                    return flow.scfg
+            return None
         if case["kind"] == "src":
             from numba_scfg.core.datastructures.ast_transforms import AST2SCFG
 
@@ -198,13 +219,13 @@ class GraphCheck:
         nt = self.nontrivial(feats, ctx, tr)
         h = None
         if nt:
-            h = core.graph_hash(case["g"]) if case["kind"] == "graph" else core.sha(case["src"])
+            h = core.graph_hash(case["g"]) if "g" in case else core.sha(case["src"])
         acc.add_ctx(ctx, case, nontrivial_hash=h, sample=(acc.evaluations % 97 == 0))
         acc.counters["class." + case["cls"]] += 1
         if tr is not None and tr.domain_problem:
             acc.counters["out_of_domain_inputs"] += 1
         acc.hist("depth", feats["depth"])
-        acc.hist("nodes", min(128, (len(case["g"]) if case["kind"] == "graph" else len(tr.orig) if tr else 0) // 4 * 4))
+        acc.hist("nodes", min(128, (len(case["g"]) if "g" in case else len(tr.orig) if tr else 0) // 4 * 4))
         acc.counters["graphs_with_loops"] += 1 if feats["region_loop"] else 0
         acc.counters["graphs_with_branch_regions"] += 1 if feats["region_branch"] else 0
         acc.counters["graphs_with_synth_heads"] += 1 if feats["heads"] else 0
